@@ -15,5 +15,7 @@ MCOpsAll ==
 MCOpsNoRH == { o \in MCOpsAll : o.op # "remove_hash" }
 MCOpsWrite == { o \in MCOpsAll : o.op \in {"write", "write_hash", "remove", "read", "metadata"} }
 
+MCIsEmpty(d) == FALSE
+
 view == <<cf, tmpf, bex, bk, pc, op, res, seen, fdc, acc, todo, crashed, nfaults, nstarts, log>>
 =============================================================================
